@@ -1,3 +1,9 @@
 """vcheck configuration of work group I2: PROPS = {"Cxx": {"families": [fam("name", quick_n, thorough_n)], "defects": ["Dn"]}}"""
 
-PROPS = {}
+_PAT = fam("i2.pat", 4000, 60000)
+_MATCH = fam("i2.match", 3000, 50000)
+
+PROPS = {
+    "C03": {"families": [_PAT, _MATCH]},
+    "C04": {"families": [_PAT, _MATCH]},
+}
